@@ -298,8 +298,16 @@ _counter = [0]
 
 
 def fresh_path(suffix=".h5"):
+    """a path with nothing at it.  Names are RECYCLED (48 of them per suffix): a later case gets a path an earlier case of
+    the same process used for another file, so that anything the package remembers per path (a cache keyed by file name)
+    shows up as a wrong answer instead of staying invisible behind ever-new names"""
     _counter[0] += 1
-    return os.path.join(scratch(), f"f{os.getpid()}_{_counter[0]}{suffix}")
+    p = os.path.join(scratch(), f"f{os.getpid()}_{_counter[0] % 48}{suffix}")
+    if os.path.isdir(p):
+        shutil.rmtree(p, ignore_errors=True)
+    elif os.path.exists(p):
+        os.remove(p)
+    return p
 
 
 @contextlib.contextmanager
